@@ -648,6 +648,7 @@ class FunctionParser(BaseParser):
                 continue
             if field.is_required(options=context.options):
                 context.handle_error(exc.AbsenceError(item=field.attname))
+                parsed_keys.append(field.attname)  # reported here: not again by the keyword pass
                 continue
             default = field.get_default(context.options)
             if not unprovided(default):
